@@ -139,7 +139,7 @@ func c04(r *rng, tier string, o *out) {
 		nfind, narch = 200000, 4000
 	}
 	emit := func(line string, nt bool, tag string, truth func() (string, bool)) {
-		impl, viol := c04run(line)
+		impl, viol := runCase("C04", line)
 		idx := o.emit(line, impl, nt)
 		o.count(tag)
 		if truth != nil {
